@@ -205,7 +205,11 @@ class Impl:
         S = self.S
         r = {"status": "err", "exc": None, "cls": None}
         try:
-            cls = self.cls_for(akind, p)
+            try:
+                cls = self.cls_for(akind, p)
+            except KeyError:
+                r["exc"] = "no-class-registered-for-sub-function"
+                return r
             r["cls"] = cls.__name__
             o = self.construct(akind, p, scalar)
             pdu = o.pdu
@@ -310,7 +314,7 @@ class Gen:
         """base case + every edge of every field (one field moved at a time), then random mixes"""
         rng = self.rng
         out = []
-        for rep in range(self.ctx.pick(2, 6)):
+        for rep in range(self.ctx.pick(3, 12)):
             base = [g(rng) for _, g, _ in fields]
             out.append((akind, list(prefix) + base, "base"))
             for i, (name, _, edges) in enumerate(fields):
@@ -318,7 +322,7 @@ class Gen:
                     p = list(base)
                     p[i] = v
                     out.append((akind, list(prefix) + p, f"{name}={label}"))
-        for _ in range(self.ctx.pick(30, 300)):
+        for _ in range(self.ctx.pick(150, 2500)):
             p = []
             for name, g, edges in fields:
                 p.append(g(rng) if rng.random() < 0.8 else rng.choice(edges)[1])
@@ -399,6 +403,17 @@ class Gen:
         out.append(("defineById", [0xF300, [1, 2], [1, 2], [1], False], "length-mismatch"))
         out.append(("defineByMem", [0xF300, [1, 2], [1], None, False], "length-mismatch"))
         out.append(("defineByMem", [0xF300, [1, 0x10000], [0x100, 1], None, False], "computed-mixed-widths"))
+        out.append(("defineByMem", [0xF300, [0x10000, 1], [1, 0x100], None, False], "computed-mixed-widths"))
+        out.append(("defineByMem", [0xF300, [1, 0x1000000, 0x100], [0x100, 0x10000, 1], None, True], "computed-mixed-widths"))
+        for _ in range(self.ctx.pick(40, 400)):
+            n = rng.randint(2, 5)
+            aw = [rng.randint(1, 15) for _ in range(n)]
+            sw = [rng.randint(1, 15) for _ in range(n)]
+            addrs = [rng.randrange(256 ** (w - 1), 256 ** w) for w in aw]
+            szs = [rng.randrange(256 ** (w - 1), 256 ** w) for w in sw]
+            out.append(("defineByMem", [rng.randint(0, 0xFFFF), addrs, szs, None, rng.random() < 0.5], "computed-mixed-widths"))
+            f = (rng.randint(1, 15) << 4) | rng.randint(1, 15)
+            out.append(("defineByMem", [rng.randint(0, 0xFFFF), addrs, szs, f, rng.random() < 0.5], "explicit-mixed-widths"))
         out.append(("defineByMem", [0xF300, [1, 0x10000], [0x100, 1], 0x11, False], "explicit-too-narrow"))
         for _ in range(self.ctx.pick(20, 200)):
             out.append(("raw", [rbytes(rng, rng.choice([0, 1, 2, 3, 8, 64]))], "raw"))
@@ -533,10 +548,12 @@ class Findings:
         per_key = {}
         for slot in slots:
             per_key.setdefault(slot[0], []).append(slot)
+        budget = 40
         for pkey in sorted(per_key):
-            for slot in per_key[pkey][:4]:
+            for slot in per_key[pkey][: (3 if budget > 0 else 1)]:
                 entry = self.best[slot]
-                if evaluate is not None and entry[2].get("direction") in ("object->bytes", "bytes->object", "client"):
+                if evaluate is not None and budget > 0 and entry[2].get("direction") in ("object->bytes", "bytes->object", "client"):
+                    budget -= 1
                     entry = shrink(entry, pkey, evaluate)
                 _, what, case, impl, model, site, spec = entry
                 case = {k: v for k, v in case.items() if k not in ("_size", "varied")}
@@ -565,7 +582,11 @@ def simpler(v):
     if v is None:
         return []
     if isinstance(v, int):
-        c = [0, 1, v // 2, v - 1] if v > 0 else ([-1] if v < -1 else [])
+        if v > 0:
+            c = [0, 1] + [1 << i for i in range(v.bit_length() - 1, 0, -1)] + [v // 2]
+            c += [v & ~(1 << i) for i in range(v.bit_length() - 1, -1, -1)] + [v - 1]
+        else:
+            c = [-1] if v < -1 else []
         return [x for i, x in enumerate(c) if abs(x) < abs(v) and x not in c[:i]]
     if isinstance(v, (bytes, bytearray)):
         v = bytes(v)
@@ -586,7 +607,7 @@ def simpler(v):
     return []
 
 
-def shrink(entry, pkey, evaluate, rounds=40):
+def shrink(entry, pkey, evaluate, rounds=120):
     """greedy minimisation: move one parameter at a time to a simpler value while the same provisional key fails"""
     for _ in range(rounds):
         case = entry[2]
@@ -596,7 +617,10 @@ def shrink(entry, pkey, evaluate, rounds=40):
             b = bytes.fromhex(case["pdu"]) if case["pdu"] != "-" else b""
             seen = set()
             for i in range(len(b) - 1, 0, -1):
-                for q in (b[:i] + b[i + 1:], b[:i] + b"\x00" + b[i + 1:]):
+                alts = [b[:i] + b[i + 1:], b[:i] + b"\x00" + b[i + 1:]]
+                if len(b) <= 12:
+                    alts += [b[:i] + bytes([x]) + b[i + 1:] for x in simpler(b[i])]
+                for q in alts:
                     if q != b and q not in seen and (len(q), q) < (len(b), b):
                         seen.add(q)
                         cands.append({"direction": d, "pdu": hx(q), "_size": 8 * len(q)})
@@ -664,7 +688,7 @@ def compare_object_case(impl, F, akind, p, label, r, m_mk, m_dec):
     _, m_hex, m_repr = m_mk.split(" ", 2)
     if r["status"] != "ok":
         F.add(f"refused-valid:{definer(real, 'pdu') if real else akind}:{r['exc']}",
-              f"{cls}({p!r:.120}) is in range (oracle: {m_hex[:60]}) but construction / .pdu raises {r['exc']}",
+              f"{cls or akind}({p!r:.120}) is in range (oracle: {m_hex[:60]}) but construction / .pdu raises {r['exc']}",
               case, impl="exc:" + str(r["exc"]), model={"pdu": m_hex, "request": m_repr}, site=f"{cls}.pdu")
         return
     if hx(r["pdu"]) != m_hex:
@@ -789,7 +813,7 @@ def byte_inputs(ctx, valid_pdus, sids):
     ctx.exhaustive_parts.append("bytes->object: every byte string of length <= 2 (65 793)")
     if ctx.quick and not ctx.widened:
         for sid in sids:
-            for _ in range(600):
+            for _ in range(3000):
                 out.append(bytes([sid, rng.randrange(256), rng.randrange(256)]))
     else:
         for sid in sids:
@@ -800,7 +824,7 @@ def byte_inputs(ctx, valid_pdus, sids):
     # neighbours of valid PDUs
     pool = sorted(set(valid_pdus), key=lambda x: (len(x), x))
     rng.shuffle(pool)
-    for pdu in pool[: ctx.pick(1500, 20000)]:
+    for pdu in pool[: ctx.pick(4000, 40000)]:
         if len(pdu) > 600:
             pdu = pdu[:40]
         out.append(pdu[:-1])
@@ -818,7 +842,7 @@ def byte_inputs(ctx, valid_pdus, sids):
             q[1] ^= 0x80
             out.append(bytes(q))
     # random tails on registered service ids
-    for _ in range(ctx.pick(4000, 60000)):
+    for _ in range(ctx.pick(20000, 300000)):
         out.append(bytes([rng.choice(sids)]) + rbytes(rng, rng.choice([3, 4, 5, 6, 7, 8, 9, 12, 33])))
     return out
 
